@@ -98,6 +98,8 @@ _Bool   vg_w_set;
 /* list ghost: the deferred / directory list as a sequence of pool indices */
 size_t vg_seq[VG_NH];
 size_t vg_n;                   /* length of the sequence */
+size_t vg_seq2[VG_NH], vg_n2, vg_k2;   /* a second list (lha_reader_free: deferred symlinks), its length, entries released */
+unsigned vg_f0;                /* lha_reader_free: releases made before the first loop (a re-presented current entry) */
 size_t vg_k;                   /* iterations done by the list-walking loop under proof */
 size_t vg_J;                   /* Skolem position */
 int    vg_refX0;               /* entry value of vg_ref[vg_X] */
@@ -127,6 +129,24 @@ int    vg_refX0;               /* entry value of vg_ref[vg_X] */
 /* non-increasing path length along the sequence */
 #define VG_SEQ_SORTED_AT(k) ((k) + 1 < vg_n ==> VG_PLEN(vg_seq[k]) >= VG_PLEN(vg_seq[(k) + 1 < VG_NH ? (k) + 1 : 0]))
 #define VG_SEQ_SORTED (VG_SEQ_SORTED_AT(0) && VG_SEQ_SORTED_AT(1) && VG_SEQ_SORTED_AT(2) && VG_SEQ_SORTED_AT(3) && VG_SEQ_SORTED_AT(4))
+
+/* the same for the second sequence vg_seq2[0..vg_n2) */
+#define VG_SEQ2_LINK(HEAD, k) ((k) < vg_n2 ==> (vg_seq2[k] < VG_NH && \
+	((k) == 0 ? (HEAD) : vg_h[vg_seq2[(k) == 0 ? 0 : (k) - 1]]._next) == &vg_h[vg_seq2[k]] && \
+	vg_h[vg_seq2[k]]._next == ((k) + 1 < vg_n2 ? &vg_h[vg_seq2[(k) + 1 < VG_NH ? (k) + 1 : 0]] : NULL)))
+#define VG_SEQ2_DISTINCT(a, b) (((a) < vg_n2 && (b) < vg_n2) ==> vg_seq2[a] != vg_seq2[b])
+#define VG_LIST_SEQ2(HEAD) (vg_n2 <= VG_NH && (vg_n2 == 0 ==> (HEAD) == NULL) && \
+	VG_SEQ2_LINK(HEAD, 0) && VG_SEQ2_LINK(HEAD, 1) && VG_SEQ2_LINK(HEAD, 2) && VG_SEQ2_LINK(HEAD, 3) && VG_SEQ2_LINK(HEAD, 4) && VG_SEQ2_LINK(HEAD, 5) && \
+	VG_SEQ2_DISTINCT(0,1) && VG_SEQ2_DISTINCT(0,2) && VG_SEQ2_DISTINCT(0,3) && VG_SEQ2_DISTINCT(0,4) && VG_SEQ2_DISTINCT(0,5) && \
+	VG_SEQ2_DISTINCT(1,2) && VG_SEQ2_DISTINCT(1,3) && VG_SEQ2_DISTINCT(1,4) && VG_SEQ2_DISTINCT(1,5) && VG_SEQ2_DISTINCT(2,3) && \
+	VG_SEQ2_DISTINCT(2,4) && VG_SEQ2_DISTINCT(2,5) && VG_SEQ2_DISTINCT(3,4) && VG_SEQ2_DISTINCT(3,5) && VG_SEQ2_DISTINCT(4,5))
+#define VG_SEQ2_HAS_NOT(i) ((0 < vg_n2 ==> vg_seq2[0] != (i)) && (1 < vg_n2 ==> vg_seq2[1] != (i)) && (2 < vg_n2 ==> vg_seq2[2] != (i)) && \
+	(3 < vg_n2 ==> vg_seq2[3] != (i)) && (4 < vg_n2 ==> vg_seq2[4] != (i)) && (5 < vg_n2 ==> vg_seq2[5] != (i)))
+/* the two sequences have no header in common */
+#define VG_SEQS_DISJOINT_AT(j) ((j) < vg_n2 ==> VG_SEQ_HAS_NOT(vg_seq2[j]))
+#define VG_SEQS_DISJOINT (VG_SEQS_DISJOINT_AT(0) && VG_SEQS_DISJOINT_AT(1) && VG_SEQS_DISJOINT_AT(2) && VG_SEQS_DISJOINT_AT(3) && VG_SEQS_DISJOINT_AT(4) && VG_SEQS_DISJOINT_AT(5))
+#define VG_FREE2_INV_AT(j) ((j) < vg_n2 ==> vg_ref[vg_seq2[j]] == ((j) < vg_k2 ? 0 : 1))
+#define VG_FREE2_INV (VG_FREE2_INV_AT(0) && VG_FREE2_INV_AT(1) && VG_FREE2_INV_AT(2) && VG_FREE2_INV_AT(3) && VG_FREE2_INV_AT(4) && VG_FREE2_INV_AT(5))
 
 /* lha_reader_free: reference on sequence entry j released iff the walk (vg_k entries done) is past it */
 #define VG_FREE_INV_AT(j) ((j) < vg_n ==> vg_ref[vg_seq[j]] == ((j) < vg_k ? 0 : 1))
@@ -200,6 +220,8 @@ int    vg_refX0;               /* entry value of vg_ref[vg_X] */
    values: symlink / fopen / fclose counts, reference count and add_ref calls, list head, full-path allocations. */
 #define VG_XS_NAME(FN) ((FN) != NULL ? (FN) : (char *) vg_tmpname)
 #define VG_XS_POST(R, FN, T, SL0, FO0, FC0, REF0, AR0, HEAD0, TA0) ( \
+	/* C20: the temporary path string is released on every way out */ \
+	!vg_M.tmp_live && vg_M.tmp_allocs - (TA0) <= 1 && \
 	/* no name could be built: nothing happens */ \
 	(((FN) == NULL && vg_M.tmp_allocs == (TA0)) ==> ((R) == 0 && vg_F.symlinks == (SL0) && vg_F.fopens == (FO0) && \
 	        vg_rd.deferred_symlinks == (HEAD0) && vg_ref[0] == (REF0) && vg_addref_calls == (AR0))) && \
@@ -247,6 +269,8 @@ int    vg_refX0;               /* entry value of vg_ref[vg_X] */
 #define VG_D0 (vg_rd.decoder == NULL && vg_rd.inner_decoder == NULL && !vg_D.live0 && !vg_D.live1)
 #define VG_D1 (vg_rd.decoder == &vg_dec[0] && vg_rd.inner_decoder == &vg_dec[0] && vg_D.live0 && !vg_D.live1)
 #define VG_D2 (vg_rd.decoder == &vg_dec[1] && vg_rd.inner_decoder == &vg_dec[0] && vg_D.live0 && vg_D.live1)
+/* not a state of the reader any more (open_decoder releases the inner decoder when the pass-through fails); kept so that
+   close_decoder can be shown to cope with it all the same */
 #define VG_D3 (vg_rd.decoder == NULL && vg_rd.inner_decoder == &vg_dec[0] && vg_D.live0 && !vg_D.live1)
 #define VG_DVIEW (vg_D.total <= vg_D.slen && (vg_D.live1 ==> vg_D.ototal <= vg_D.oslen))
 
